@@ -63,7 +63,7 @@ func (c c16) Run(ctx *core.Ctx) error {
 		maxN, allUpTo = 7, 5
 	}
 	var cases []json.RawMessage
-	for _, cmp := range []string{"int", "string", "bytes"} {
+	for _, cmp := range []string{"int", "string", "bytes", "intdiff"} {
 		for n := 0; n <= maxN; n++ {
 			for _, p := range permutations(n) {
 				if n <= allUpTo {
@@ -180,6 +180,9 @@ func (c c16) skipCase(cs c16Case) core.Result {
 		switch cs.Cmp {
 		case "int":
 			mism = runSkip[int](cs, hv, skiplist.OrderedComparator[int]{}, func(u int) int { return u*3 - 4 }, &r)
+		case "intdiff":
+			// a consistent comparator that returns the difference (any magnitude), as the Compare contract allows
+			mism = runSkip[int](cs, hv, diffComparator{}, func(u int) int { return u*30 - 40 }, &r)
 		case "string":
 			mism = runSkip[string](cs, hv, skiplist.OrderedComparator[string]{}, func(u int) string {
 				if u == 0 {
@@ -342,6 +345,10 @@ func runSkip[K any](cs c16Case, hv []int, cmp skiplist.Comparator[K], key func(u
 	return mism
 }
 
+type diffComparator struct{}
+
+func (diffComparator) Compare(a, b int) int { return a - b }
+
 // ---- heap
 
 type heapIt struct {
@@ -373,7 +380,7 @@ func subsetKeys(mask, u int) []int {
 	var ks []int
 	for b := 0; b < u; b++ {
 		if mask&(1<<b) != 0 {
-			ks = append(ks, b+1)
+			ks = append(ks, (b+1)*10)
 		}
 	}
 	return ks
@@ -432,7 +439,17 @@ func checkHeap(its []pq.IteratorWithContext[int, [2]int, int], masks []int, u, t
 			msg = fmt.Sprintf("panic: %v", p)
 		}
 	}()
-	q, err := pq.NewPriorityQueue[int, [2]int, int](skiplist.OrderedComparator[int]{}, its)
+	// keys are multiples of 10 and the comparator returns the difference: a consistent comparator with magnitudes
+	// other than 1 (on every other list, the unit comparator on the rest)
+	var cmp skiplist.Comparator[int] = skiplist.OrderedComparator[int]{}
+	sum := 0
+	for _, m := range masks {
+		sum += m
+	}
+	if sum%2 == 1 {
+		cmp = diffComparator{}
+	}
+	q, err := pq.NewPriorityQueue[int, [2]int, int](cmp, its)
 	if err != nil {
 		return "init error " + err.Error()
 	}
